@@ -9,7 +9,11 @@
 import Gojq.Model.Cli.Process
 import Gojq.Model.Wire
 import Driver.Common
+import Driver.C1516Flags
 open Gojq Gojq.Wire Gojq.Process
+
+/- stream `flags`: arguments as hex tokens (`-` = empty argument)  ->  `ok bools=… indent=… libs=… maps=… args=… jsonargs=… rest=…`
+   or `err <class> <hex flag name>`; stream `flagtable`: any line -> the model's table `long/short/kind,…` -/
 
 def parseOpts (s : String) : Opts :=
   { raw := s.contains 'r', raw0 := s.contains '0', join := s.contains 'j', exitStatus := s.contains 'e' }
@@ -64,5 +68,6 @@ def processLine (line : String) : String :=
       let st := process o ins {}
       s!"{runStatus o .ok ins} {orDash (bytesToHex st.stdout)} {orDash (",".intercalate (st.stderr.map chunkStr))}"
 
+
 def main (args : List String) : IO UInt32 :=
-  Driver.main [("process", processLine)] args
+  Driver.main [("process", processLine), ("flags", flagsLine), ("flagtable", flagTableLine)] args
